@@ -238,6 +238,8 @@ def evaluate_case(case, wd, check_artifacts=True, stats=None):
     if stats is not None:
         stats["runs"] = stats.get("runs", 0) + nruns
         stats["llvm_as"] = stats.get("llvm_as", 0) + n_as
+        stats["schedules"] = stats.get("schedules", 0) + len(case.orders) * len(case.entropies)
+        stats["orders"] = stats.get("orders", 0) + len(case.orders)
     # de-duplicate by class, keep first detail
     seen = {}
     for c, d in viol:
@@ -720,6 +722,9 @@ def run(tier, seed):
         "perturbations": pert_count,
         "negative_variants": sum(neg_by.values()),
         "negative_variants_by_reason_and_kind": neg_by,
+        "file_orders_executed": stats.get("orders", 0),
+        "distinct_schedules_executed": stats.get("schedules", 0),
+        "schedule_measure": "one schedule = (file order, entropy stream) of one split configuration; a history = one operation sequence through one Compiler",
         "histories": stats.get("histories", 0),
         "cli_runs": stats.get("runs", 0),
         "llvm_as_checks": stats.get("llvm_as", 0),
